@@ -23,6 +23,10 @@ def small_configs(tier):
         ("queue_during_drain", [], [], [["q 1", "q 2"], ["q 3"]], {1: ["q 4"], 4: ["q 5"]}),
         ("queue_before_loop", ["q 1"], [], [["q 2"]], {}),
         ("reenter_after_quit", [], [["q 7", "r 8"]], [["quit", "q 3", "quit"]], {}),
+        # timers (ta k = runAfter(0, callback k); the timerfd is emulated, no real time passes): a timer added by a
+        # foreign thread / a task / before loop(), whose callback queues, runs inline and adds another timer
+        ("timer_callback_submits", [], [], [["ta 501"], ["q 2"]], {501: ["q 3", "r 4"]}),
+        ("timer_from_task_and_prefix", ["ta 502"], [], [["q 1"]], {1: ["ta 503"], 502: ["q 5"], 503: ["q 6", "r 7"]}),
     ]
     if tier != "quick":
         cfgs += [
@@ -46,8 +50,22 @@ def gen_random_case(rng, cid, allow_pre_queue):
         t = next(fresh)
         top.append(t)
         threads[rng.randrange(nthr)].append("%s %d" % (rng.choice(["q", "q", "r"]), t))
-    # events with callbacks
-    for _ in range(rng.choice([0, 0, 1, 2])):
+    # events with callbacks: I/O events (ev k) or -- never both in one program, so that at most one event source is
+    # ready at a time and the dispatch order does not depend on the poller -- one timer (ta k = runAfter(0, cb k))
+    timer = rng.random() < 0.2
+    if timer:
+        k = next(fresh) + 500
+        where = rng.random()
+        if where < 0.6:
+            threads[rng.randrange(nthr)].append("ta %d" % k)
+        else:
+            # added from inside a task
+            t = next(fresh)
+            threads[rng.randrange(nthr)].append("q %d" % t)
+            scripts[t] = ["ta %d" % k]
+        scripts[k] = []
+        top.append(k)
+    for _ in range(0 if timer else rng.choice([0, 0, 1, 2])):
         k = next(fresh) + 100
         threads[rng.randrange(nthr)].append("ev %d" % k)
         scripts[k] = []
@@ -195,8 +213,8 @@ def run(chk, replay=None):
     chk.cov["distinct_nontrivial"] = len(sigs)
     chk.cov["rule"] = ("corpus (F-2 witness) + systematic schedule enumeration (iterative context bounding: every schedule with <= N "
                        "preemptions of each small configuration, both pollers, within a per-configuration budget) + random programs "
-                       "(1-4 submitter threads, <= 6 top-level tasks, I/O callbacks, nested queueInLoop/runInLoop/quit up to depth 3, "
-                       "code before loop()) under seeded random schedules; schedule points: every lock / poll / thread start plus "
+                       "(1-4 submitter threads, <= 6 top-level tasks, I/O callbacks, timer callbacks (runAfter(0) from threads and tasks, "
+                       "emulated timerfd), nested queueInLoop/runInLoop/quit up to depth 3, code before loop() and between calls of loop()) under seeded random schedules; schedule points: every lock / poll / thread start plus "
                        "the instrumentation points loop_entry, queue_mid, quit_mid; non-trivial = the schedule preempts at least "
                        "once or a task is submitted from the loop thread itself; distinct by (configuration, programs, realised "
                        "choice list)")
